@@ -555,6 +555,7 @@ var specC06 = vstat.Spec[c06Case]{
 	Gen:         genC06,
 	Check:       checkC06,
 	Inflight:    true,
+	Confirm:     true,
 }
 
 func TestC06(t *testing.T)       { vstat.Check(t, specC06) }
